@@ -162,6 +162,18 @@ def layer_D_leaves():
     # a boolean matrix; an expression vector of Constants as the other side of a dot product; exponent-1 power sums
     out += [("qform", v, ("arr2", ((1, 1, 0), (0, 1, 1), (1, 0, 1)), "bool")), ("dot", v, ("cvec", (2.0, 3.0, 5.0))),
             ("dot", ("cvec", (2.0, -1.0, 0.5)), vp1), ("sum", ("vpow", vp1, 1))]
+    # quadratic forms whose matrix is NOT symmetric although Q and Q.T agree within numpy.allclose's default tolerances:
+    # tiny entries (data in very small units) and a small relative asymmetry between large entries
+    QT = ("arr2", ((2e-9, 5e-9, 0.0), (-1e-9, 1e-9, 3e-9), (4e-9, 0.0, 3e-9)))
+    QN = ("arr2", ((1.0, 1000.0, 0.5), (1000.005, 1.0, 0.25), (0.5, 0.2500001, 2.0)))
+    out += [("qform", v, QT), ("qform", v, QN), ("qform", vp1, QT), ("qform", ("slice", u, 1, 4, None), QN),
+            ("dot", v, ("mv", QT, v)), ("bin", "*", ("c", 1e9), ("qform", v, QT))]
+    out += tiny_coefficient_rows()
+    # reductions over a vector whose elements are Parameters ONLY, under operators whose other operands are variable-free
+    pv = ("pvec", ("p", "q"))
+    out += [("bin", "-", X, ("bin", "*", ("c", 0.5), ("sum", pv))), ("bin", "*", X, ("un", "neg", ("mm", ("arr", (1.0, 2.0)), pv))),
+            ("bin", "/", X, ("bin", "+", ("dot", pv, pv), ("c", 1))), ("bin", "+", ("sum", pv), X),
+            ("bin", "*", ("sum", v), ("un", "exp", ("un", "neg", ("norm", pv, 2))))]
     return out
 
 
@@ -199,6 +211,22 @@ def shard(gen, i, n):
 
 def size(r):
     return 1 + sum(size(c) for c in r[1:] if isinstance(c, tuple) and c and isinstance(c[0], str) and len(c) > 1 and c[0] not in ("arr", "arr2", "lst", "lst2"))
+
+
+def tiny_coefficient_rows():
+    """literal coefficients far from O(1) (physical constants, data in tiny / huge units) multiplying non-constant factors.
+    Each row is rescaled to O(1) by an OUTER constant factor, so that the comparison (whose tolerance has an absolute
+    floor of 1e-9) sees a term that a derivative rule dropped or altered."""
+    sq = ("bin", "**", X, ("c", 2))
+    rows = [(1e15, ("bin", "*", ("c", 1e-15), sq)), (1e34, ("bin", "*", ("bin", "*", ("c", -6.6e-34), X), Y)),
+            (1e13, ("bin", "*", ("un", "sin", X), ("c", 3e-13))), (1e14, ("bin", "/", ("bin", "*", ("c", 2e-14), ("bin", "**", X, ("c", 3))), Y)),
+            (1e-15, ("bin", "*", ("c", 4e15), ("bin", "*", X, Y))),
+            (1e15, ("bin", "+", ("bin", "*", ("c", 1e-15), sq), ("bin", "*", ("c", 2e-15), Y)))]
+    out = []
+    for k, r in rows:
+        out.append(("bin", "*", ("c", k), r))
+        out.append(("bin", "/", r, ("c", 1.0 / k)))
+    return out
 
 
 def nested_powers():
